@@ -13,7 +13,7 @@ LEVEL = "exploration"
 CASES = {"quick": 900, "thorough": 40000}
 BUDGET = {"quick": 60, "thorough": 1200}
 FLOORS = {"quick": {"nontrivial": 150, "tags": {"zip_mixed_bus": 20, "dc": 20, "fused_group": 20, "xward": 10, "dcline": 5,
-                                                "distributed_slack": 5, "z_switch": 10, "trafo3w": 30}, "max_skip_frac": 0.4},
+                                                "distributed_slack": 5, "z_switch": 10, "trafo3w": 30, "plain_single_slack:conductive": 8, "co_located_slacks": 20}, "max_skip_frac": 0.4},
           "thorough": {"nontrivial": 5000, "tags": {"zip_mixed_bus": 500, "dc": 500, "fused_group": 500}, "max_skip_frac": 0.4}}
 RULE = ("seeded random networks (profiles full_mix, transmission, multi_island, weakly_meshed) x random runpp/rundcpp option "
         "vectors; one case = one converged power flow whose result tables are checked bus group by bus group; non-trivial = "
@@ -133,6 +133,10 @@ def net_tags(net, opts, ac):
         tags.add("z_switch")
     if (~net.bus.in_service).any():
         tags.add("oos_bus")
+    sl = list(net.ext_grid.bus[net.ext_grid.in_service].values) + (list(net.gen.bus[net.gen.in_service & net.gen.slack].values) if len(net.gen) else [])
+    grp = {b: i for i, gr in enumerate(balance.fused_groups(net)) for b in gr}
+    if len(sl) != len({grp.get(b) for b in sl}):
+        tags.add("co_located_slacks")
     if len(net.switch) and (~net.switch.closed & (net.switch.et != "b")).any():
         tags.add("open_branch_switch")
     return tags
@@ -141,10 +145,35 @@ def net_tags(net, opts, ac):
 def run_case(seed, tier, case_no):
     g = netgen.G(seed)
     profile = g.C(PROFILES)
-    net = netgen.rnd_net(seed, profile)
+    plain = g.B(0.12)
+    if plain:
+        # single slack, no PV-like elements, constant-power loads: the configuration in which pandapower takes its fast
+        # single-slack result routine; bus shunt admittances purely conductive or purely susceptive or absent
+        profile = g.C(["dist_radial", "weakly_meshed"])
+        net = netgen.rnd_net(seed, profile, {"gen": 0.0, "xward": 0.0, "dcline": 0.0, "zip_load": 0.0, "second_eg": 0.0, "slack_gen": 0.0,
+                                             "co_slack": 0.0, "extra_island": 0.0, "shunt": 0.9, "ward": 0.6})
+        kind = g.C(["conductive", "susceptive", "none", "mixed"])
+        if kind in ("conductive", "none"):
+            net.shunt["q_mvar"] = 0.
+            net.ward["qz_mvar"] = 0.
+            net.line["c_nf_per_km"] = 0.
+            net.trafo["i0_percent"] = net.trafo.pfe_kw / net.trafo.sn_mva / 10. if kind == "conductive" else 0.
+            if len(net.trafo3w):
+                net.trafo3w["i0_percent"] = net.trafo3w.pfe_kw / net.trafo3w.sn_hv_mva / 10. if kind == "conductive" else 0.
+        if kind in ("susceptive", "none"):
+            net.shunt["p_mw"] = 0.
+            net.ward["pz_mw"] = 0.
+            net.line["g_us_per_km"] = 0.
+        if kind == "none":
+            net.trafo["pfe_kw"] = 0.
+            if len(net.trafo3w):
+                net.trafo3w["pfe_kw"] = 0.
+    else:
+        net = netgen.rnd_net(seed, profile)
     ac = not g.B(0.15)
     if ac:
-        opts = pf.rnd_pf_options(g, net)
+        # plain cases mostly with the defaults (numba on): the fast single-slack result path
+        opts = {} if (plain and g.B(0.7)) else pf.rnd_pf_options(g, net)
         opts.setdefault("tolerance_mva", 1e-8)
         status, exc = pf.try_run(pp.runpp, net, **opts)
     else:
@@ -157,6 +186,8 @@ def run_case(seed, tier, case_no):
     digest = common.net_digest(net, {"ac": ac, "o": opts})
     sample = {"profile": profile, "net": netgen.describe(net), "calc": "runpp" if ac else "rundcpp", "options": opts}
     tags = {"ac" if ac else "dc", "profile:" + profile}
+    if plain:
+        tags.add("plain_single_slack:" + kind)
     for k, v in opts.items():
         if k in ("algorithm", "trafo_model", "init"):
             tags.add("%s=%s" % (k, v))
